@@ -1,9 +1,11 @@
 // ISO 32000-1 7.4.3 ASCII85Decode on the white-space-free byte sequence f.
 pub open spec fn pow85(n: nat) -> int decreases n { if n == 0 { 1 } else { 85 * pow85((n - 1) as nat) } }
+#[verifier::opaque]
 pub open spec fn a85_val(g: Seq<u8>) -> int decreases g.len() {
     if g.len() == 0 { 0 } else { a85_val(g.drop_last()) * 85 + (g.last() - 0x21) }
 }
 pub open spec fn a85_digits(g: Seq<u8>) -> bool { forall|k: int| 0 <= k < g.len() ==> 0x21 <= #[trigger] g[k] <= 0x75 }
+#[verifier::opaque]
 pub open spec fn be4(v: int) -> Seq<u8> {
     seq![((v / 0x100_0000) % 256) as u8, ((v / 0x1_0000) % 256) as u8, ((v / 0x100) % 256) as u8, (v % 256) as u8]
 }
@@ -54,11 +56,14 @@ pub proof fn lemma_a85_bound(g: Seq<u8>)
     decreases g.len()
 {
     reveal_with_fuel(pow85, 7);
+    reveal_with_fuel(a85_val, 2);
     if g.len() > 0 { lemma_a85_bound(g.drop_last()); assert(g.drop_last().len() == g.len() - 1); assert(pow85(g.len()) == 85 * pow85((g.len() - 1) as nat)); }
 }
 pub proof fn lemma_be4(v: u32)
     ensures be4(v as int) == seq![#[verifier::truncate] ((v >> 24u32) as u8), #[verifier::truncate] ((v >> 16u32) as u8), #[verifier::truncate] ((v >> 8u32) as u8), #[verifier::truncate] (v as u8)],
+        be4(v as int).len() == 4,
 {
+    reveal(be4);
     assert((#[verifier::truncate] ((v >> 24u32) as u8)) as u32 == (v / 0x100_0000u32) % 256u32) by (bit_vector);
     assert((#[verifier::truncate] ((v >> 16u32) as u8)) as u32 == (v / 0x1_0000u32) % 256u32) by (bit_vector);
     assert((#[verifier::truncate] ((v >> 8u32) as u8)) as u32 == (v / 0x100u32) % 256u32) by (bit_vector);
@@ -68,10 +73,13 @@ pub proof fn lemma_be4(v: u32)
 
 pub proof fn lemma_be4_idx(v: u32, i: usize)
     requires i < 4,
-    ensures be4(v as int)[i as int] == #[verifier::truncate] ((v >> ((24 - 8 * i) as usize)) as u8),
+    ensures be4(v as int)[i as int] == #[verifier::truncate] ((v >> ((24 - 8 * i) as usize)) as u8), be4(v as int).len() == 4,
 {
+    reveal(be4);
     if i == 0 { assert((#[verifier::truncate] ((v >> 24usize) as u8)) as u32 == (v / 0x100_0000u32) % 256u32) by (bit_vector); }
     else if i == 1 { assert((#[verifier::truncate] ((v >> 16usize) as u8)) as u32 == (v / 0x1_0000u32) % 256u32) by (bit_vector); }
     else if i == 2 { assert((#[verifier::truncate] ((v >> 8usize) as u8)) as u32 == (v / 0x100u32) % 256u32) by (bit_vector); }
     else { assert((#[verifier::truncate] ((v >> 0usize) as u8)) as u32 == v % 256u32) by (bit_vector); }
 }
+
+pub proof fn lemma_be4_len(v: int) ensures be4(v).len() == 4 { reveal(be4); }
